@@ -19,7 +19,7 @@ const modPath = "example.com/m"
 
 // Ty is a field type of the origin struct.
 type Ty struct {
-	K    string `json:"k"`              // basic | named | ptr | slice | array | map | any | error
+	K    string `json:"k"`              // basic | named | ptr | slice | array | map | any | error | ifacelit
 	Name string `json:"name,omitempty"` // basic: int, string, …; named: the type's name
 	Pkg  string `json:"pkg,omitempty"`  // named: "origin" | "lib" | "target" | a std import path
 	Len  int    `json:"len,omitempty"`  // array
@@ -99,6 +99,9 @@ func pkgNameOf(in *Input, pkg string) string {
 	return pkg
 }
 
+// the one unnamed method interface of the menu, as go/printer prints it
+const ifaceLitText = "interface{ M() string }"
+
 // canonical basic name as go/types prints it
 func canonBasic(n string) string {
 	switch n {
@@ -122,6 +125,8 @@ func (t *Ty) src(in *Input, from string) string {
 		return "any"
 	case "error":
 		return "error"
+	case "ifacelit":
+		return ifaceLitText
 	case "named":
 		if t.Pkg == from {
 			return t.Name
@@ -216,6 +221,8 @@ func (t *Ty) coq(in *Input) string {
 		return "TAny"
 	case "error":
 		return "TError"
+	case "ifacelit":
+		return "(TIfaceLit " + core.Hex(ifaceLitText) + ")"
 	case "named":
 		return fmt.Sprintf("(TNamed %s %s %s)", core.Hex(pkgPathOf(in, t.Pkg)), core.Hex(t.Name), coqMsigs(methodsOf(in, t)))
 	case "ptr":
@@ -499,6 +506,38 @@ func (in *Input) shadowClass() bool {
 				if p != "target" && shadowName(pkgNameOf(in, p), "in", "out", "i", "o") {
 					return true
 				}
+			}
+		}
+	}
+	return false
+}
+
+func (t *Ty) mentionsIfaceLit() bool {
+	if t == nil {
+		return false
+	}
+	return t.K == "ifacelit" || t.Elem.mentionsIfaceLit() || t.Key.mentionsIfaceLit()
+}
+
+// ifaceClass: a retained, unreplaced field of an enabled struct declaration mentions an unnamed method interface
+func (in *Input) ifaceClass() bool {
+	for _, fs := range in.flat() {
+		s := fs.S
+		if !s.enabled() || !(s.RHS == "sel" || s.RHS == "local") || in.Types[s.Origin].NonStruct != "" {
+			continue
+		}
+		omit := map[string]bool{}
+		for _, o := range s.Omit {
+			omit[o] = true
+		}
+		repl := parseReplace(s.Replace)
+		for i := range in.Types[s.Origin].Fields {
+			f := &in.Types[s.Origin].Fields[i]
+			if _, r := repl[f.Name]; omit[f.Name] || r {
+				continue
+			}
+			if f.Ty.mentionsIfaceLit() {
+				return true
 			}
 		}
 	}
